@@ -8,9 +8,9 @@ CONSTANTS
  SubSet = {"dm"}
  StartedSet = {TRUE}
  Eager = TRUE
- DeclSet = "all"
+ DeclSet = {}
  MaxDefs = 2
  Vias = {"exec", "run"}
- Acts = {"define", "del", "rebind", "push", "pop", "clear", "reload", "close", "unload", "start", "fire", "set", "call", "out"}
+ Acts = {"define", "del", "rebind", "push", "pop", "clear", "reload", "close", "unload", "boot", "fire", "set", "call", "out"}
 INVARIANT Report
 CHECK_DEADLOCK FALSE
